@@ -24,7 +24,7 @@ __all__ = [
     "Unsupported", "PathAbort", "BudgetExceeded", "HarnessError", "Ctx", "Explorer",
     "SymBool", "SymInt", "SymRat", "SymChar", "SymStr", "SymBytes", "B", "I", "mkbool", "mkint",
     "zand", "zor", "znot", "ch_eq", "ch_in", "ranges_norm", "ranges_from_pred", "in_ranges",
-    "concretize", "ALPHABETS", "chars_to_ranges", "cs_key", "ziff", "zimp", "zbool",
+    "concretize", "ALPHABETS", "chars_to_ranges", "cs_key", "ziff", "zimp", "zbool", "independent_of",
 ]
 
 
@@ -1443,3 +1443,31 @@ def concretize(v, m):
     if isinstance(v, (set, frozenset)):
         return type(v)(concretize(x, m) for x in v)
     return v
+
+
+def independent_of(ctx, chars):
+    """Non-interference query on the current path: the path condition does not constrain the given
+    symbolic characters at all, i.e. PC(t) and not PC(t') is unsatisfiable for fresh copies t' (ranging
+    over the same alphabet).  True means that no decision taken so far depended on them."""
+    ex = ctx.ex
+    asserts = list(ex.solver.assertions())
+    if not asserts:
+        return True
+    pc = z3.And(asserts)
+    subs, dom = [], []
+    for c in chars:
+        if isinstance(c, str):
+            continue
+        ctx.nvars += 1
+        f = z3.Int("indep!%d" % ctx.nvars)
+        subs.append((c.z, f))
+        dom.append(in_ranges(f, c.dom))
+    if not subs:
+        return True
+    pc2 = z3.substitute(pc, *subs)
+    r = ex._q(z3.And(dom + [z3.Not(pc2)]))
+    if r == z3.unsat:
+        return True
+    if r == z3.sat:
+        return False
+    raise Unsupported("solver unknown on the non-interference query")
